@@ -16,5 +16,11 @@ case "$(basename "$FILE")" in
     else
       echo "VIOLATION property=$ID replay=$FILE"; exit 1
     fi ;;
-  *) cd "$ROOT" && exec "$ROOT/harness/target/release/flv" replay "$ID" "$FILE" ;;
+  *)
+    FLV="$ROOT/harness/target/release/flv"
+    if [ "$ID" = "C12" ]; then
+      CARGO_NET_OFFLINE=true cargo build --release --offline --features watcher --target-dir "$ROOT/harness/target-w" >"$ROOT/harness/build-w.log" 2>&1 || { echo "BUILD FAILED"; exit 2; }
+      FLV="$ROOT/harness/target-w/release/flv"
+    fi
+    cd "$ROOT" && exec "$FLV" replay "$ID" "$FILE" ;;
 esac
